@@ -878,11 +878,64 @@ func (x *waiterTr) instanceLoop(fd *ast.FuncDecl) string {
 		return x.fail(loop.Body, "loop body (want `err := func() error {…}(); if err != nil { return err }`)")
 	}
 	var b strings.Builder
+	b.WriteString(x.runCtxFacts(fd, wv))
 	b.WriteString("/-- regenerated from `core/engine/instance.go` `(*instance).Run`: ONE pass of `for !" + wv + ".IsFinished(ctx)` (`" + wv +
 		" := coreutil.NewWaiter(i.schedule)` is created once, before the loop); `it.finished` is the answer of IsFinished -/\n")
 	b.WriteString("def iteration (discardOverflow : Bool) (w : Waiter) (it : Iter) : Waiter × Outcome :=\n")
 	b.WriteString("  if it.finished then (w, Outcome.loopEnd) else\n")
 	b.WriteString(x.closure(lit.Body.List, wv, "  ") + "\n")
+	return b.String()
+}
+
+// runCtxFacts: every call of the waiter in (*instance).Run gets the SAME context - the parameter of Run, never re-bound: a done
+// context stays done from one call to the next (`CtxSticky`, `CtxMono` of the theorems).
+func (x *waiterTr) runCtxFacts(fd *ast.FuncDecl, wv string) string {
+	param := "<none>"
+	if fd.Type.Params != nil && len(fd.Type.Params.List) == 1 && len(fd.Type.Params.List[0].Names) == 1 && x.src(fd.Type.Params.List[0].Type) == "context.Context" {
+		param = fd.Type.Params.List[0].Names[0].Name
+	}
+	var args []string
+	seen := map[string]bool{}
+	rebound := 0
+	ast.Inspect(fd.Body, func(n ast.Node) bool {
+		switch v := n.(type) {
+		case *ast.CallExpr:
+			if sel, ok := v.Fun.(*ast.SelectorExpr); ok && x.src(sel.X) == wv {
+				a := "<" + strconv.Itoa(len(v.Args)) + " arguments>"
+				if len(v.Args) == 1 {
+					a = x.src(v.Args[0])
+				}
+				if !seen[a] {
+					seen[a] = true
+					args = append(args, strconv.Quote(a))
+				}
+			}
+		case *ast.AssignStmt:
+			for _, l := range v.Lhs {
+				if id, ok := l.(*ast.Ident); ok && id.Name == param {
+					rebound++
+				}
+			}
+		case *ast.FuncLit:
+			if v.Type.Params != nil {
+				for _, f := range v.Type.Params.List {
+					for _, nm := range f.Names {
+						if nm.Name == param {
+							rebound++
+						}
+					}
+				}
+			}
+		}
+		return true
+	})
+	var b strings.Builder
+	b.WriteString("/-- regenerated from `(*instance).Run`: the context parameter of `Run` -/\n")
+	b.WriteString("def runCtxParam : String := " + strconv.Quote(param) + "\n\n")
+	b.WriteString("/-- the distinct arguments the methods of the waiter are called with in `Run` -/\n")
+	b.WriteString("def runWaiterCallArgs : List String := [" + strings.Join(args, ", ") + "]\n\n")
+	b.WriteString("/-- assignments to / re-declarations of that parameter inside `Run` -/\n")
+	b.WriteString(fmt.Sprintf("def runCtxRebound : Nat := %d\n\n", rebound))
 	return b.String()
 }
 
